@@ -13,7 +13,7 @@ add("C02", "online watermark-discipline monitor (started-Emit counter at each de
     COMMON_NOTE + "The no-early-firing condition is necessary, not sufficient (started ≥ processed). The zone where the statement's two lateness criteria disagree is left unconstrained (DESIGN §5 C02).",
     "DESIGN.md §5 C02")
 add("C03", "reference-model monitor (per-function mathematical reference) + permutation and state-leak metamorphic tests over CountingWindow batches",
-    "Every aggregate column of every delivered CountingWindow(N) batch is compared with an independently written reference applied to the batch's witness rows; shuffled batches and fresh-instance batches must agree.",
+    "Every aggregate column of every delivered CountingWindow(N) batch is compared with an independently written reference applied to the batch's witness rows; shuffled batches and fresh-instance batches must agree; a seventh of the cases form the same batches with GLOBAL WINDOW TRIGGER WHEN count(*) >= N (plain and parameterised numeric aggregates).",
     COMMON_NOTE + "percentile/merge_agg are weakly documented, the oracle accepts every standard reading.",
     "DESIGN.md §5 C03")
 add("C04", "partition-by-typed-tuple checker over recorded deliveries (counting, event-time tumbling, event-time session, global windows)",
@@ -61,7 +61,7 @@ add("C14", "reference state machines per partition + sync/async parity + solo-vs
     COMMON_NOTE + "Semantics the documentation leaves open are checked for parity/isolation only (listed in c14_ref.go).",
     "DESIGN.md §5 C14")
 add("C15", "brute-force reference matcher (pattern-language enumeration) + isolation metamorphic test, incl. Stop-flush deliveries",
-    "Every reported match must be a valid match of maximal length for its start, starts leftmost-first under the SKIP rule, MATCH_NUMBER consecutive, nothing omitted, unfinished accepting runs flushed at Stop, and a partition's output must equal its solo output.",
+    "Every reported match must be a valid match of maximal length for its start, starts leftmost-first under the SKIP rule, MATCH_NUMBER consecutive, nothing omitted, unfinished accepting runs flushed at Stop, and a partition's output must equal its solo output; WITHIN is also written as a fractional number of microseconds on a 500 ns grid, and a producer that pauses inside a match over sequence-number timestamps must not lose it (c15pause).",
     COMMON_NOTE + "≤ 4 variables, ≤ 12 events per partition; SQL:2016 preference among equal-length matches is not checked.",
     "DESIGN.md §5 C15")
 add("C16", "sequential reference map over recorded histories + porcupine linearizability check of concurrent Upsert/Delete/lookup histories (child processes)",
